@@ -213,6 +213,36 @@ def main(argv=None):
         return 2
     cid = argv[0].upper()
     sys.path.insert(0, VERIF)
+    # one scratch directory per invocation, owned and removed by this
+    # process: worker processes (which end without running their exit
+    # handlers) and fresh interpreters put their real files below it
+    import shutil
+    import tempfile
+    own_scratch = None
+    if not os.environ.get("VERIF_SCRATCH"):
+        own_scratch = tempfile.mkdtemp(
+            prefix="cnfgen-verif.",
+            dir="/dev/shm" if os.path.isdir("/dev/shm") else None)
+        os.environ["VERIF_SCRATCH"] = own_scratch
+    try:
+        return _main(cid, argv)
+    finally:
+        if own_scratch:
+            shutil.rmtree(own_scratch, ignore_errors=True)
+            os.environ.pop("VERIF_SCRATCH", None)
+
+
+def scratch_dir(prefix):
+    """A private real directory for the calling process, below the scratch
+    directory of the invocation."""
+    import tempfile
+    root = os.environ.get("VERIF_SCRATCH")
+    if not root or not os.path.isdir(root):
+        root = "/dev/shm" if os.path.isdir("/dev/shm") else None
+    return tempfile.mkdtemp(prefix=prefix, dir=root)
+
+
+def _main(cid, argv):
     try:
         if argv[1] == "--replay":
             return replay(cid, argv[2])
